@@ -149,6 +149,18 @@ Example c11_replay_any_time_sample :
   get_db (replay 86400000 (aof_log (run_tevs sample_timed))) 0 <> get_db (run_tevs sample_timed) 0.
 Proof. exact sample_timed_ok. Qed.
 
+(** Re-sending the logged commands as request frames over a fresh connection - what the
+    harness's AOFREPLAY and any external redo tool do - is [replay]: a logged name is never
+    transaction control and has no blanks (checked over the generated table), so each frame
+    goes straight to process_normal_command in database 0. *)
+Theorem c11_resend_is_replay :
+  forall now log, forallb is_logged log = true -> resend now log = replay now log.
+Proof. exact resend_is_replay. Qed.
+(** ... and the file of a history consists of logged commands only *)
+Theorem c11_file_holds_logged_commands_only :
+  forall tr, forallb is_logged (logged_of tr) = true.
+Proof. exact logged_of_all_logged. Qed.
+
 (** ---- 5. refutations: one witness per class ---- *)
 Theorem c11_unlogged_getset_refuted :
   diverges 0 (hist [[bs "SET"; bs "k"; bs "a"]; [bs "GETSET"; bs "k"; bs "b"]]).
